@@ -10,6 +10,10 @@ Three parts, selected by case["part"]:
   history  a program over a pool of arrays: derive / derive again from the same input / drop (inputs before results
            and vice versa) / re-read; every survivor must still equal the value recorded when it was created, also
            after every buffer the library reported released has been overwritten and freed.
+  python   (checks/c12p.py, tier P) a valid layout wrapped in ak.Array x the Python-level operations (ak.num, flatten, reducers, sort,
+           pad_none, combinations, ufuncs, concatenate, zip, slices, to_list/to_json, copy, to_buffers, ...) on the akshim emulation of
+           awkward._ext: the call returns or raises a Python exception, every operand buffer is byte-identical afterwards, the
+           operand reads back unchanged, and the result can be walked.
 A crash, sanitizer report or watchdog timeout is attributed to the case by the runner (FORK_EACH).
 """
 import ctypes
@@ -32,19 +36,19 @@ from vlib.common import Violation, HarnessError
 ID = "C12"
 MANIFEST = {
     "technique": "property-based testing / fuzzing (Hypothesis) of the C++ layer under AddressSanitizer+UBSan with per-case process isolation and a per-case watchdog: corner-biased operation campaign, invalid-layout campaign over the check/print/convert entry points, and generated operation histories with buffer scribbling after release",
-    "level_text": "Generated-input exploration in three parts, every case in its own forked process (a signal, sanitizer report or watchdog timeout is attributed to the case; a timeout is re-run once with 10x the budget before it counts as a hang). (A) valid layouts biased to zero-length arrays and buffers, size-0/size-1 regular lists and n-d NumpyArrays x the whole operation catalogue with arguments at the corners (n > size, target 0 / negative / 2**61..2**63-1, axes at and beyond the limits, empty carry, empty/overshooting ranges, combination counts up to and beyond what fits in memory or in int64 under RLIMIT_AS): every call must return or raise ValueError/RuntimeError (std::bad_alloc only for explicitly oversized requests), leave every input buffer byte-identical and the input's value unchanged when re-read; results are printed and converted too. (B) arbitrary, possibly invalid descriptions (one documented rule broken, one integer perturbed, or bold random integers / wrong lengths / truncated contents) x validityerror, tostring, type, form, tojson, iteration (to_list), and the conversions: each must return or raise an ordinary exception; out-of-bounds reads are witnessed by ASan on exact-size buffers. (C) histories: programs of derive / drop / re-read steps over arrays built from malloc'ed buffers owned by the harness and from library-owned copies; every survivor must keep the value recorded at creation after its inputs were dropped, other results were derived, and every buffer whose release the bridge reported was overwritten and freed. Held on everything generated outside the recorded known findings (conversions of invalid layouts that trust list bounds / record lengths / union indices; rpad count overflow).",
-    "level_note": "C++ level only (src/libawkward + src/cpu-kernels through the /verif bridge); the pybind11 layer cannot be built here, so Python-level reference counting of buffers is modelled by the bridge's release tokens. Trusted: the bridge and akshim, akmodel.decode as the reader of values. Oversized/overflowing requests run only in the plain flavour (ASan aborts on a failing operator new), so an overflowing count that yields a small allocation is seen as a crash or wrong value, not as an ASan report. Content::carry is called with in-range positions only (internal building block). Signed overflow of reducers on extreme values and NaN->int casts are not generated. Not exercised: merge/concatenate, setitem_field, ArrayBuilder, from_json, VirtualArray and partitions as operands (other properties), and the 'fails to return' clause only through the watchdog (no case came near it).",
+    "level_text": "Generated-input exploration in four parts, every case in its own forked process (a signal, sanitizer report or watchdog timeout is attributed to the case; a timeout is re-run once with 10x the budget before it counts as a hang). (A) valid layouts biased to zero-length arrays and buffers, size-0/size-1 regular lists and n-d NumpyArrays x the whole operation catalogue with arguments at the corners (n > size, target 0 / negative / 2**61..2**63-1, axes at and beyond the limits, empty carry, empty/overshooting ranges, combination counts up to and beyond what fits in memory or in int64 under RLIMIT_AS): every call must return or raise ValueError/RuntimeError (std::bad_alloc only for explicitly oversized requests), leave every input buffer byte-identical and the input's value unchanged when re-read; results are printed and converted too. (B) arbitrary, possibly invalid descriptions (one documented rule broken, one integer perturbed, or bold random integers / wrong lengths / truncated contents) x validityerror, tostring, type, form, tojson, iteration (to_list), and the conversions: each must return or raise an ordinary exception; out-of-bounds reads are witnessed by ASan on exact-size buffers. (C) histories: programs of derive / drop / re-read steps over arrays built from malloc'ed buffers owned by the harness and from library-owned copies; every survivor must keep the value recorded at creation after its inputs were dropped, other results were derived, and every buffer whose release the bridge reported was overwritten and freed. (D) tier P, purity: valid layouts wrapped in ak.Array x ~35 Python-level operations (ak.num/flatten/reducers/sort/argsort/pad_none/combinations/cartesian/local_index/is_none/mask/where/concatenate/zip/with_field/values_astype/firsts/singletons/copy/to_buffers+from_buffers/to_list/to_json/str, ufuncs, slices) run by the unmodified src/awkward on the _ext emulation: returns or raises a Python exception, operand buffers byte-identical, operand value unchanged, result walkable. Held on everything generated outside the recorded known findings (conversions of invalid layouts that trust list bounds / record lengths / union indices; rpad count overflow).",
+    "level_note": "Crash / memory / lifetime clauses at the C++ level (src/libawkward + src/cpu-kernels through the /verif bridge), purity also at the Python level on the emulation of awkward._ext; the pybind11 layer cannot be built here, so Python-level reference counting of buffers is modelled by the bridge's release tokens. Trusted: the bridge and akshim, akmodel.decode as the reader of values. Oversized/overflowing requests run only in the plain flavour (ASan aborts on a failing operator new), so an overflowing count that yields a small allocation is seen as a crash or wrong value, not as an ASan report. Content::carry is called with in-range positions only (internal building block). Signed overflow of reducers on extreme values and NaN->int casts are not generated. Not exercised: merge/concatenate, setitem_field, ArrayBuilder, from_json, VirtualArray and partitions as operands (other properties), and the 'fails to return' clause only through the watchdog (no case came near it).",
 }
 RULE = ("case = (valid description, operation + corner-biased arguments) | (possibly invalid description, one check/print/convert entry point) | "
-        "(1-2 descriptions + a program of <= 30 derive/drop/read steps); non-trivial = the case hits one of the statement's corners "
+        "(1-2 descriptions + a program of <= 30 derive/drop/read steps) | (valid description, Python-level operation); non-trivial = the case hits one of the statement's corners "
         "(zero-length array or buffer, regular size 0/1, n > size, target 0, axis at/beyond the limits, empty carry, empty/overshooting range, "
         "big or oversized n or target) / the description really breaks a rule below or at the converted node / a result is read after one of its "
-        "inputs was dropped; distinct by hash of the case")
+        "inputs was dropped / the Python-level call returned on an operand with at least one non-empty buffer; distinct by hash of the case")
 ASSUMPTIONS = ["std::bad_alloc (MemoryError) is accepted only when the request is explicitly oversized (combinations whose count cannot be allocated; rpad targets that are negative or >= 2**40; invalid layouts holding integers >= 2**24)",
                "oversized and int64-overflowing requests are executed in the plain flavour only, under RLIMIT_AS",
                "a constructor refusing an invalid description (std::invalid_argument) is an ordinary exception and is tallied",
                "Content::carry (internal) is only called with positions inside the array",
-               "results are measured against /repo plus the pending proposed_fixes 01 and 02 until the coordinator applies them"]
+               "until the coordinator applies proposed_fixes 03 and 04 the check is run against a scratch copy of /repo with them applied"]
 PLAN = {
     "quick": [{"flavour": "san", "cases": 14000}, {"flavour": "plain", "cases": 8000}],
     "thorough": [{"flavour": "san", "cases": 170000}, {"flavour": "plain", "cases": 80000}],
